@@ -404,6 +404,12 @@ pub fn templates(thorough: bool) -> Vec<Template> {
             return None;
         }
         if term == 2 || term == 3 {
+            // Grammar rule: no allocating terminal after a float division. With the float-as-integer
+            // folding defect (FINDINGS F3) the *optimized* load can turn such a chain into
+            // `Cast(x / 0.0)` = i32::MAX and abort the process on an 8 GiB allocation.
+            if ops.iter().enumerate().any(|(i, o)| matches!(o, COp::Arith { op: "Div", .. }) && tys[i].dt == Dt::F32) {
+                return None;
+            }
             let d0s: &[usize] = if meta == Meta::Fixed { &[2] } else { &[2, 1, 3] };
             for d0 in d0s {
                 let mut v = Some(match p[0] {
